@@ -668,14 +668,32 @@ func (sc *scenario) doImport(rec *kit.Recorder, attempts *int) bool {
 	return !sc.failed
 }
 
-// discardLines derives the cleanup steps that lead from one projection to another (message kind).
-func discardLines(before, after map[string]any) []kit.Step {
+// discardLines derives the cleanup steps that lead from one projection to another (message
+// kind): rows vanish from the front, then the catalogue entry.
+func (sc *scenario) discardLines(before, after map[string]any) []kit.Step {
 	var out []kit.Step
 	ok := map[string]any{"ok": true}
 	for _, c := range chanNames {
 		b, a := kit.Map(kit.Map(before, "t"), c), kit.Map(kit.Map(after, "t"), c)
-		if len(kit.List(b, "rows")) > 0 && len(kit.List(a, "rows")) == 0 {
-			out = append(out, kit.Step{Ev: kit.Ev("DiscardRows", "c", c, "res", ok), St: midState})
+		hw := int64(0)
+		if r, exported := sc.expRows[c]; exported {
+			hw = int64(r[1])
+		}
+		left := map[int64]bool{}
+		for _, x := range kit.List(a, "rows") {
+			left[kit.ToInt(x)] = true
+		}
+		gone := int64(0) // highest restored row that vanished
+		for _, x := range kit.List(b, "rows") {
+			if v := kit.ToInt(x); !left[v] && v <= hw && v > gone {
+				gone = v
+			}
+		}
+		switch {
+		case len(kit.List(b, "rows")) > 0 && len(left) == 0:
+			out = append(out, kit.Step{Ev: kit.Ev("DiscardRows", "c", c, "through", 0, "res", ok), St: midState})
+		case gone > 0:
+			out = append(out, kit.Step{Ev: kit.Ev("DiscardRows", "c", c, "through", gone, "res", ok), St: midState})
 		}
 		if kit.Bool(b, "cat") && !kit.Bool(a, "cat") {
 			out = append(out, kit.Step{Ev: kit.Ev("DiscardMeta", "c", c, "res", ok), St: midState})
@@ -752,7 +770,7 @@ func (sc *scenario) doDiscard(rec *kit.Recorder) bool {
 		}
 		var lines []kit.Step
 		if sc.kind == "msg" {
-			lines = discardLines(before, proj)
+			lines = sc.discardLines(before, proj)
 		} else if kit.Diff(before, proj) != "" {
 			lines = []kit.Step{{Ev: kit.Ev("Discard", "res", map[string]any{"ok": true}), St: midState}}
 		}
